@@ -360,4 +360,71 @@ theorem C03_single_lax_idempotent_partial (P : Prims) (name : String) (b v w : P
     validate P [(name, b)] v = .ok w ∧ validate P [(name, b)] w = .ok w := by
   simp [validate, hf, h1, hfix, bind, Except.bind, pure, Except.pure]
 
+/-! ### container types with item types: every declared constraint holds on the RESULT, and the result re-parses
+
+`Rule.parse` (rule.py:1723-1760, `Utv.C02D.parseTyped`): the args parser converts the items, the converted items are packed
+into the origin container (a set de-duplicates: `[1, '1']` becomes `{1}`), and only then the validators, the contains
+family and the hook run.  So whatever the input was, the constraints are checked on the value that is returned. -/
+
+open Utv.C02D in
+/-- a hook that hands its argument back when it accepts -/
+def PostPreserving (d : Decl) : Prop := ∀ x y, d.post x = .ok y → y = x
+
+open Utv.C02D in
+/-- **the result satisfies every declared constraint** — length / unique / … validators and the contains family are
+checked on the converted, packed value `w`, and `w` is what is returned -/
+theorem C03_result_satisfies_constraints (P : Prims) (d : Decl) (v r : PyVal)
+    (hp : ∀ c ∈ d.validators, ∃ f, validatorOf c.1 = some f ∧ Preserving f) (hpost : PostPreserving d)
+    (h : parseTyped P d v = .ok r) :
+    applyArgs d v = .ok r ∧
+    (∀ c ∈ d.validators, ∃ f, validatorOf c.1 = some f ∧ f P r c.2 = .ok r) ∧
+    ContainsHolds d.acc d.cont r ∧ d.post r = .ok r := by
+  unfold parseTyped at h
+  cases ha : applyArgs d v with
+  | error e => simp [ha, bind, Except.bind] at h
+  | ok w =>
+    simp only [ha, bind, Except.bind] at h
+    cases hv : validate P d.validators w with
+    | error e => simp [hv] at h
+    | ok w2 =>
+      obtain ⟨hall, rfl⟩ := (C02_validate_iff P d.validators w w2 hp).mp hv
+      simp only [hv] at h
+      cases hc : parseContains d.acc d.cont w2 with
+      | error e => simp [hc] at h
+      | ok w3 =>
+        obtain ⟨hch, rfl⟩ := (C02_contains_iff d.acc d.cont w2 w3).mp hc
+        simp only [hc] at h
+        have : r = w3 := hpost w3 r h
+        subst this
+        exact ⟨rfl, hall, hch, h⟩
+
+open Utv.C02D in
+/-- **… and therefore re-parses to itself** as soon as converting and packing it again gives it back (items of the item
+type convert to themselves, a container of the origin class packs to itself) -/
+theorem C03_container_reparse (P : Prims) (d : Decl) (v r : PyVal)
+    (hp : ∀ c ∈ d.validators, ∃ f, validatorOf c.1 = some f ∧ Preserving f) (hpost : PostPreserving d)
+    (h : parseTyped P d v = .ok r) (hfix : applyArgs d r = .ok r) :
+    parseTyped P d r = .ok r := by
+  obtain ⟨_, hall, hch, hpo⟩ := C03_result_satisfies_constraints P d v r hp hpost h
+  unfold parseTyped
+  simp only [hfix, bind, Except.bind]
+  have hv : validate P d.validators r = .ok r := (C02_validate_iff P d.validators r r hp).mpr ⟨hall, rfl⟩
+  simp only [hv]
+  have hc : parseContains d.acc d.cont r = .ok r := (C02_contains_iff d.acc d.cont r r).mpr ⟨hch, rfl⟩
+  simp only [hc, hpo]
+
+open Utv.C02D in
+/-- the `Set[int]`, `min_length = 2` example: `[1, '1']` converts to `[1, 1]`, packs to `{1}`, and is **rejected** (the
+length is checked after de-duplication); `[1, '2']` gives `{1, 2}`, which re-parses -/
+theorem C03_set_min_length_example (P : Prims) :
+    let conv : PyVal → M PyVal := fun v => match v with
+      | .seq k xs => pure (.seq k (xs.map fun x => match x with | .str "1" => .int 1 | .str "2" => .int 2 | y => y))
+      | y => pure y
+    let d : Decl := { validators := [("min_length", .int 2)], args := some conv, cont := ⟨false, none, none⟩,
+                      acc := fun _ => false, post := pure, pack := Py.construct .set }
+    parseTyped P d (.seq .list [.int 1, .str "1"]) = .error .valueError ∧
+    parseTyped P d (.seq .list [.int 1, .str "2"]) = .ok (.seq .set [.int 1, .int 2]) ∧
+    parseTyped P d (.seq .set [.int 1, .int 2]) = .ok (.seq .set [.int 1, .int 2]) := by
+  refine ⟨?_, ?_, ?_⟩ <;> rfl
+
 end Utv.C03
